@@ -228,7 +228,9 @@ def add_bits_shape(ctx, prog, rule):
     oks = has("Shl") and any(t.startswith("(1_") and "Shl" in t and "Rem 8_usize" in t for t in txt)
     okt = any("Shl" in t and "last_byte_bit" in t for t in txt)
     okd = any("Div 8_usize" in t and "Add" in t for t in txt)
-    ctx.ob(rule, "add-bits/bit-loop", oks and okt and okd, "bit loop uses source mask 1 << (b %% 8), target mask 1 << last_byte_bit and target byte start + (start_bit + b) / 8")
+    # the rule only knows the mask spelling of the bit loop; another spelling (shift-and-mask) is not judged
+    recognised = oks
+    ctx.ob(rule, "add-bits/bit-loop", (oks and okt and okd) if recognised else None, "bit loop uses source mask 1 << (b %% 8), target mask 1 << last_byte_bit and target byte start + (start_bit + b) / 8" + ("" if recognised else " - the loop is spelled differently (no 1 << (b % 8) / 1 << last_byte_bit masks): not judged"))
     # range 0..bits
     rng = False
     for bi in f.cfg():
@@ -248,6 +250,8 @@ def add_bits_shape(ctx, prog, rule):
         r = strip(Rg.operand(t["args"][1]))
         okg = r[0] == "agg" and r[1][2] == "RangeTo" and strip(r[2][0])[0] == "call" and strip(r[2][0])[1].endswith("full_bytes")
     okh = any(strip(Rh.operand(t["args"][1]))[0] == "agg" and strip(Rh.operand(t["args"][1]))[1][2] == "RangeFull" for bi, t in h.calls(lambda c, t: c.endswith("::drain")))
+    # std::mem::take(&mut self.buffer) hands out the whole buffer as well
+    okh = okh or any(self_field(strip(Rh.operand(t["args"][0]))) == "buffer" for bi, t in h.calls(lambda c, t: c.endswith("mem::take") or c.endswith("mem::replace")))
     okz = any(kind == "stmt" and const_val(Rh.rvalue(p)) == 0 for bi, si, kind, p in field_assignments(h, "bs_write::ByteStreamWriteBuffer", "last_byte_bit"))
     ctx.ob(rule, "add-bits/drain-sizes", okg and okh and okz, "get_full_bytes drains ..full_bytes(), get_all_bytes drains everything and resets the bit phase")
     fb = prog.fn("bs_write::ByteStreamWriteBuffer::full_bytes")
@@ -255,4 +259,6 @@ def add_bits_shape(ctx, prog, rule):
     t = Resolver(fb).local(0)
     alts = [tree_str(strip_deep(a)) for a in (t[1] if t[0] == "phi" else (t,))]
     okfb = sorted(alts) == sorted(["Vec::len(arg1.buffer)", "(Vec::len(arg1.buffer) Sub 1_usize)"])
+    # the same value as one expression: len - usize::from(last_byte_bit != 0)
+    okfb = okfb or alts in (["(Vec::len(arg1.buffer) Sub (arg1.last_byte_bit Ne 0_usize))"], ["(Vec::len(arg1.buffer) Sub ((arg1.last_byte_bit Ne 0_usize) as usize))"])
     ctx.ob(rule, "add-bits/full-bytes", okfb, "full_bytes() = len - 1 when a partial byte exists, else len: %s" % alts)
